@@ -638,6 +638,9 @@ static Domain makeDomain(const std::string& prop, bool thorough)
     // extremes
     for (int k = 0; k < (thorough ? 12 : 8); ++k)
         d.tasks.push_back({'D', 0, 0, 0, k});
+    if (prop != "C07")   // C07's domain ends at max = 65535 + 24
+        for (int k = 100; k < 104; ++k)
+            d.tasks.push_back({'D', 0, 0, 0, k});
     // single sweep over every length (thorough), empty batch
     if (thorough)
         for (int k = 0; k < 32; ++k)
@@ -795,6 +798,23 @@ static void runTask(W& w, const std::string& prop, const Domain& d, const Task& 
                 exec();
             }
         }
+        else if (k >= 100)
+        {
+            // frames larger than the largest message (a 16-bit slice size must not be taken from the room left in such a frame)
+            const size_t mxs[] = {65560, 70000, 131096, 200000};
+            for (size_t mn : {(size_t) 0, (size_t) 64})
+                for (int order = 0; order < 2; ++order)
+                    for (uint32_t l : {(uint32_t) 60000, (uint32_t) 65535, (uint32_t) 4441})
+                    {
+                        c = CaseSpec();
+                        c.mn = mn; c.mx = mxs[k - 100];
+                        if (order == 0)
+                            c.b = {gen(1, l, 0), gen(1, 7, 1)};
+                        else
+                            c.b = {gen(1, 7, 0), gen(1, l, 1), gen(1, 65535, 2)};
+                        exec();
+                    }
+        }
         else
         {
             // thorough only: status/vendor extremes and exact-fit neighbours
@@ -841,7 +861,7 @@ struct EncOp
 };
 // E10 / E11 differ from E0 / E4 in the protocol version ONLY (same context, type and batch shape), so that
 // anything cached under a key that forgets the version collides
-static const std::vector<EncOp> kOps = {{'D', 1}, {'D', 0x0203}, {'S', 1}, {'S', 7}, {'R', 0}, {'E', 0}, {'E', 1}, {'E', 2}, {'E', 3}, {'E', 4}, {'E', 5}, {'E', 10}, {'E', 11}, {'E', 12}};
+static const std::vector<EncOp> kOps = {{'D', 1}, {'D', 0x0203}, {'S', 1}, {'S', 7}, {'R', 0}, {'E', 0}, {'E', 1}, {'E', 2}, {'E', 3}, {'E', 4}, {'E', 5}, {'E', 10}, {'E', 11}, {'E', 12}, {'E', 13}};
 
 // the (batch, context) pairs; 0..5 are the C09 alphabet, 6..9 additional finals of C10
 static CaseSpec encodeArg(int k)
@@ -858,11 +878,13 @@ static CaseSpec encodeArg(int k)
         case 6: c.mn = 0; c.mx = 40; c.b = {gen(1, 33, 0), gen(1, 3, 1), gen(1, 4, 2)}; break;   // starts with a segmenting packet
         case 7: c.mn = 0; c.mx = 100; c.b = {gen(3, 8, 0), gen(3, 9, 1)}; break;                  // status only
         case 8: c.mn = 0; c.mx = 100; c.b = {gen(1, 8, 0), gen(1, 9, 1)}; break;                  // data only
+        case 13: c.mn = 0; c.mx = 100; c.b = {gen(0, 5, 0), gen(0, 6, 1)}; break;   // message type 0 ("undefined"): no type change opens the first frame
         case 12: c.mn = 0; c.mx = 1500; c.b = {gen(1, 16, 0), gen(3, 0, 1), gen(1, 16, 2)}; break;   // a zero-length payload between two type changes (emits no message)
         case 10: c.mn = 0; c.mx = 1500; c.ver = 2; c.b = {gen(1, 6, 0)}; break;       // E0 with another version
         case 11: c.mn = 0; c.mx = 64; c.ver = 1; c.b = {gen(3, 11, 0)}; break;          // E4 with another version
         default: c.mn = 30; c.mx = 48; c.b = {gen(0xFF, 25, 0), gen(1, 24, 1), gen(1, 2, 2)}; break;
     }
+    c.junk = 1;   // the packets carry their own non-zero device / stream ids and counters: the encoder's configuration must win, also when it is 0
     return c;
 }
 
@@ -1103,10 +1125,10 @@ static void dfs10(W& w, const HistState& s, std::vector<int>& path, int target)
 {
     if ((int) path.size() == target)
     {
-        for (int fin = 0; fin < 14; ++fin)
+        for (int fin = 0; fin < 15; ++fin)
         {
-            int fa = fin;          // 0..9 finals, 10/11 the version-only variants, 12 the zero-length-payload batch
-            if (fin == 13)
+            int fa = fin;          // 0..9 finals, 10/11 the version-only variants, 12 the zero-length-payload batch, 13 message type 0
+            if (fin == 14)
             {
                 // the same batch as the last encode of the history
                 fa = -1;
@@ -1211,7 +1233,7 @@ int main(int argc, char** argv)
     if (prop == "C09")
     {
         const int depth = thorough ? 7 : 5;
-        run.rule = "every history over the 14-op alphabet {setDeviceId x2, setStreamId x2, restart, encode x9 (batch,context,version) triples, two of which differ from another one in the version only, one with a zero-length payload between two type changes} up to the "
+        run.rule = "every history over the 15-op alphabet {setDeviceId x2, setStreamId x2, restart, encode x9 (batch,context,version) triples, two of which differ from another one in the version only, one with a zero-length payload between two type changes, one with message type 0; all packets carry their own non-zero ids} up to the "
                    "stated depth as a tree of copied real Encoder objects, every prefix judged by the counter/identity model; distinct = distinct "
                    "(frame structure of the last call, last counter, identity) outcomes";
         run.extra.push_back({"depth", mc::Json::num(depth)});
